@@ -75,6 +75,11 @@ def templates(A, B, ka, kb, kt):
                     ("attr", cname, owners, forbidden), "KF-07" if kt else None))
     # 5 insert without column list into a (possibly) known target
     out.append(("insert_positional", f"insert into {T} select a.ax, a.k, a.{A[1]} from db.a a", to_t([["db.a.ax", "ax"], ["db.a.k", "k"], [f"db.a.{A[1]}", A[1]]]), None))
+    # 5b the same with the query in parentheses (alone, as a set operation, with a CTE in front)
+    pos = to_t([["db.a.ax", "ax"], ["db.a.k", "k"], [f"db.a.{A[1]}", A[1]]])
+    out.append(("insert_positional_paren", f"insert into {T} (select a.ax, a.k, a.{A[1]} from db.a a)", pos, None))
+    out.append(("insert_positional_paren_union", f"insert into {T} (select a.ax, a.k, a.{A[1]} from db.a a union all select a.ax, a.k, a.{A[1]} from db.a a)", pos, None))
+    out.append(("insert_positional_paren_cte", f"insert into {T} (with c as (select a.ax, a.k, a.{A[1]} from db.a a) select c.ax, c.k, c.{A[1]} from c)", pos, None))
     # 6 explicit list always wins
     out.append(("insert_explicit_list", f"insert into {T} (m1, m2) select a.ax, a.k from db.a a", [["db.a.ax", f"{T}.m1"], ["db.a.k", f"{T}.m2"]], "KF-07" if kt else None))
     # 7 star over a derived table of a star
